@@ -375,6 +375,11 @@ int __wrap_getrlimit(int r, struct rlimit* l) {
 
 /* ---------------- descriptor I/O ---------------- */
 static void block_thread_until(int fd, uint32_t what) { /* only for descriptors left in blocking mode */
+  /* C08: a blocking call suspends only the calling fiber. Under the fiber runtime every descriptor that came
+   * from a shim is non-blocking underneath; reaching this point means the whole kernel thread is about to
+   * sleep in the kernel with the fibers queued behind it */
+  if (fiber_mode && !(readiness(fd) & (what | EPOLLHUP | EPOLLERR)))
+    sim_violation("C08-kernel-thread-blocked", "descriptor %d was left in blocking mode underneath: the call blocks the kernel thread, not just the calling fiber", fd);
   while (!(readiness(fd) & (what | EPOLLHUP | EPOLLERR))) {
     T[me].st = ST_SLEEP;
     T[me].deadline = now_ns + 1000000;
@@ -653,6 +658,8 @@ static int k_connect(int fd, const struct sockaddr* addr, socklen_t al) {
   k->connect_fail = 0;
   uint64_t slow = fault_draw(F_CONNECT_SLOW, 2, 3 * TICK_NS / 1000);
   uint64_t fail = fault_draw(F_CONNECT_FAIL, 5, 2 * TICK_NS / 1000);
+  if ((fail || slow) && !k->nonblock && fiber_mode)
+    sim_violation("C08-kernel-thread-blocked", "socket %d was left in blocking mode underneath: connect blocks the kernel thread, not just the calling fiber", fd);
   if (fail) {
     k->kind = KF_CONNECTING;
     k->connect_fail = 1;
@@ -678,7 +685,11 @@ static int k_accept(int fd, struct sockaddr* a, socklen_t* al) {
   if (!kvalid(fd)) return (int)note(-1, EBADF, 0, 0);
   kfd_t* k = &K[fd];
   if (k->kind != KF_LISTEN) return (int)note(-1, is_sock(fd) ? EINVAL : ENOTSOCK, 0, 0);
-  if (k->nbacklog == 0) return (int)note(-1, EAGAIN, 0, 0);
+  if (k->nbacklog == 0) {
+    if (!k->nonblock && fiber_mode)
+      sim_violation("C08-kernel-thread-blocked", "listening descriptor %d was left in blocking mode underneath: accept blocks the kernel thread, not just the calling fiber", fd);
+    return (int)note(-1, EAGAIN, 0, 0);
+  }
   if (fault_draw(F_SPURIOUS, 12, 1)) return (int)note(-1, EAGAIN, 0, 0);
   int nfd = kalloc_fd();
   if (nfd < 0) return (int)note(-1, EMFILE, 0, 0);
